@@ -1718,7 +1718,15 @@ func (vsc *virtualServerConfigurator) generatePolicies(
 	}
 
 	if len(config.RateLimit.PolicyGroupMaps) > 0 {
-		for _, v := range generateLRZGroupMaps(config.RateLimit.Zones) {
+		// map iteration order is random: emit the group maps in the order of their variables
+		groupMaps := generateLRZGroupMaps(config.RateLimit.Zones)
+		groupVariables := make([]string, 0, len(groupMaps))
+		for groupVariable := range groupMaps {
+			groupVariables = append(groupVariables, groupVariable)
+		}
+		sort.Strings(groupVariables)
+		for _, groupVariable := range groupVariables {
+			v := groupMaps[groupVariable]
 			if hasDuplicateMapDefaults(v) {
 				vsc.addWarningf(ownerDetails.owner, "Tiered rate-limit Policies on [%v/%v] contain conflicting default values", ownerDetails.ownerNamespace, ownerDetails.ownerName)
 				return policiesCfg{
